@@ -40,7 +40,7 @@ func run(r *ev.Run) {
 	r.Assume("a destination 'acknowledged' a blob when its ReceiveBlob returned nil with the blob's true size and the durable destination below the wrappers accepted it during that call")
 	r.Assume("restart = fail-stop of the incarnation's source, destination and queue wrappers (inject.Freeze), then a new sync handler over the same durable stores and queue KV with fresh wrappers; goroutines of the old incarnation keep running but every lower-layer call they make fails without effect")
 	r.Assume("progress is driven by logical events only: client retries, one filler upload, and a bounded number (3 + planned fault occurrences) of IdleWait returns; IdleWait's 5 s loop interval is waited for, never judged; a 90 s watchdog on IdleWait only yields inconclusive")
-	r.Assume("queue rows that the handler has finished with but could not remove (injected queue.Delete failure; queue.Set landing after the loop's queue.Delete) are tolerated in the running incarnation and must be drained by one fault-free restart")
+	r.Assume("a queue row whose blob is at the destination but which is still present after the bounded progress (the handler logs and ignores a failed queue.Delete) is tolerated in the running incarnation, counted, and must be drained by one fault-free restart")
 	r.Assume("index destination: delivered = have:<ref> is \"<size>|indexed\" and meta:<ref> starts with \"<size>|\"; histories for the index family upload every dependency before its dependents, sequentially")
 	r.Assume("validateOnStart / fullSyncOnStart (and with them the log.Fatalf paths of the validation enumerator) are not exercised")
 
@@ -90,7 +90,12 @@ func run(r *ev.Run) {
 		r.Count("incarnations", o.Incarnations)
 		r.Count("startups_refused", o.Refused)
 		r.Count("stale_rows_tolerated", o.StaleRows)
+		r.Count("stale_rows_without_failed_delete", o.StaleUnexplained)
 		iterHist[fmt.Sprint(o.IdleWaitsMax)]++
+		if o.StaleUnexplained > 0 {
+			r.Note("stale_rows_without_failed_delete_in", sc.Family+"/"+sc.Kind+"@"+sc.Dest)
+			fmt.Printf("INFO scenario %s: %d stale queue rows without a failed queue.Delete (drained by restart: %v)\n", sc.ID, o.StaleUnexplained, o.DrainRestart)
+		}
 		if o.DrainRestart {
 			r.Count("drain_restarts", 1)
 		}
@@ -140,7 +145,7 @@ func run(r *ev.Run) {
 	r.Require("fault_kinds", kindNames()...)
 	r.Require("restart_at", "queue.Set", "dst.ReceiveBlob", "queue.Delete", "src.Fetch")
 	r.Require("startup", "refused-on-unreadable-queue")
-	r.Require("schedules", "queue.Delete-before-queue.Set")
+	r.Require("schedules", "reupload-during-dst.ReceiveBlob", "reupload-during-queue.Delete")
 	if r.Thorough() {
 		for _, d := range dests {
 			for _, c := range []string{"queue.Set", "dst.ReceiveBlob", "queue.Delete", "src.Fetch"} {
